@@ -435,6 +435,12 @@ def run(chk):
                 report_crash(chk, src, confirmed, cls, r, tag=(tag if cls == "cyclic" else None))
             elif r.get("outcome") == "hang":
                 chk.inconc("probe hang not reproduced as a crash")
+            elif r.get("outcome") == "died" and r.get("rc") == -6 and \
+                    core.run_cases([Case("again", src, {"steps": 400000})], shards=1, timeout=120, probe_cmd=[core.PROBE_BIN]).get("again", {}).get("outcome") not in ("died", "panic", None):
+                # the worker aborted under its address-space cap (core._cap_address_space) and gets through without it,
+                # like the uncapped binary: a request between the cap and the installed memory, which says nothing
+                # about the interpreter
+                chk.count("not judged: allocation beyond the probe's address-space cap, fine without the cap")
             else:
                 chk.inconc("probe-only %s" % r.get("outcome"))
         chk.count("probe_suspects", len(suspects))
